@@ -62,16 +62,16 @@ CHECKS = {
                 note="Level 'other': grouping of batched draw_iter pixels into windows is C03 (not decided); 'last colour wins / no other cell changes' relies on the controller model plus C08. Trusted: rustc MIR, interpreter, MIPI decode model, C14, C18, C09, e-g-core intersection/bounding_box contracts."),
     "C02": dict(level="other", design="5/C02",
                 technique="taint-style sanitiser rule and panic-obligation audit over the interpreted cones of the DrawTarget methods: every value-changing cast / overflow / bounds / unwrap site is an obligation discharged by ranges, bounded Farkas, loop interval invariants and Houdini-style template invariants (P_win)",
-                text="For all 8 orientations and both batch settings, with arbitrary i32 coordinates: no caller-supplied coordinate reaches a u16 cast unchecked, every address window ends inside the framebuffer as seen under the address mode (also for the batched pipeline, through template invariants on the accumulators), and every panic site in the cones of draw_iter / fill_contiguous / fill_solid is discharged (skip products by the stated '< 2^32 points' precondition).",
+                text="For all 8 orientations and both batch settings, with arbitrary i32 coordinates: no caller-supplied coordinate reaches a u16 cast unchecked, every address window ends inside the framebuffer as seen under the address mode (also for the batched pipeline, through template invariants on the accumulators), and every panic site in the cones of draw_iter / fill_contiguous / fill_solid is discharged (skip products by the stated '< 2^32 points' precondition); for fill_contiguous the in-bounds remainder gets exactly the colours it would get unclipped (C04's colour-stream rule, re-decided here).",
                 note="Level 'other': 'the in-bounds remainder is drawn exactly as if ...' for batched draw_iter is C03. Errors originate only from interface failures: C12. Found and fixed: unchecked casts in draw_iter, both batch settings (commit 605d72f)."),
     "C04": dict(level="other", design="5/C04",
                 technique="path-wise abstract interpretation of fill_contiguous (polynomial identities for the stream-index arithmetic) and of the take/skip iterator's transition relation",
                 text="Unclipped rectangles feed the stream directly into take(iw*ih); clipped ones consume exactly (iy-ay)*aw + (ix-ax) colours first on all four guard paths, then take iw and skip aw-iw per row; TakeSkip::next is decided per call (row not exhausted: one colour; exhausted: skip `skip`, yield next, counter := take-1; take=0: None), which by induction is 'colour k on point k'.",
                 note="Level 'other': the induction over calls and early-ending streams are argued, not mechanised. Trusted: core Iterator::nth/take contracts, e-g-core intersection contract. 16-bit-pointer helper variants: thorough tier (msp430 facts)."),
     "C08": dict(level="other", design="5/C08",
-                technique="DFA over interpreted event traces (loops as fixpoints) for the framing language; entailment of start<=end / end-inside-framebuffer; polynomial identity pixel count == window area",
-                text="Every drawing entry point (8 orientations, both batch settings) emits only groups CASET RASET RAMWR pixels, error paths being prefixes; for the fill methods and set_pixel start <= end and the end is inside the framebuffer; fill_solid's repeat count and fill_contiguous's take limit equal (ex-sx+1)*(ey-sy+1).",
-                note="Level 'other': for batched draw_iter start<=end and block colour count = rows x row length are not decided (C03). Four big-endian bytes per address command: C18."),
+                technique="DFA over interpreted event traces (loops as fixpoints) for the framing language; entailment of start<=end / end-inside-framebuffer; polynomial identity pixel count == window area; for the batched draw_iter, relational loop invariants of the row/block accumulators found by Houdini over type-generated candidates (checked inductively at loop entry and every back edge, equalities eliminated by Gaussian substitution)",
+                text="Every drawing entry point (8 orientations, both batch settings) emits only groups CASET RASET RAMWR pixels, error paths being prefixes; for the fill methods, set_pixel and every window group draw_iter emits (batched or not) start <= end and the end is inside the framebuffer; fill_solid's repeat count and fill_contiguous's take limit equal (ex-sx+1)*(ey-sy+1); every block the batched draw_iter flushes carries exactly (x_right-x_left+1)*(y_bottom-y_top+1) colours.",
+                note="Level 'other'. The accumulator invariants are derived for two orientations in the quick tier (they do not depend on it) and for all eight, plus the 16-bit-pointer build, in the thorough tier. Four big-endian bytes per address command: C18. That the colours inside a block are the right ones in the right order is C03 (not decided)."),
     "C20": dict(level="other", design="5/C20",
                 technique="event counting on interpreted traces (window set-ups per fill, loop depth of SPI writes), capacity constants read from heapless::Vec type arguments",
                 text="Exactly one CASET/RASET/RAMWR per successful fill_solid / fill_contiguous and none in a loop (clear is the default); with batch, draw_iter never falls back to single-pixel bursts and 2 <= row capacity <= block capacity; no SPI write sits in the per-pixel staging loop.",
@@ -79,7 +79,7 @@ CHECKS = {
 }
 
 NOT_APPLICABLE = {
-    "C03": "equivalence of two nested stateful iterators with per-pixel semantics over unbounded streams needs inductive invariants over accumulator histories; no dataflow/typestate/abstract-interpretation rule in reach decides it (shape-level necessary conditions are covered under C02/C12/C20)",
+    "C03": "equivalence of two nested stateful iterators with per-pixel, order-sensitive semantics over unbounded streams: the content and order of the colours inside a block (which colour lands on which point) is a statement about histories of the accumulators, not about their current shape; the shape-level necessary conditions that static analysis does reach are decided elsewhere - coordinates sanitised and windows in bounds (C02), every flushed block has start <= end and exactly width*height colours (C08), no fallback to single-pixel bursts and capacity bounds (C20)",
     "C19": "a property of the rendered picture (pixel-exact frame, colour regions, asymmetry) as a function of target size through embedded-graphics primitives whose bodies are outside the analysed crate; nothing picture-level is visible in the shape of the code",
 }
 
